@@ -19,11 +19,14 @@ def run(ctx: Ctx) -> Collector:
     c = Collector("R5")
     _update_min(ctx, c)
     n = 0
+    from ..flow import spliced, spliceable
     for fi in ctx.prog.all_functions():
-        s = summarise(ctx.prog, fi)
+        if fi.parent is not None and not fi.is_async and fi.cls is None and spliceable(ctx.prog, fi.parent, fi):
+            continue        # analysed spliced into its parent
+        s = spliced(ctx.prog, fi)
         for e in s.events:
             if e.kind == "store":
-                tgt = e.term[1]
+                tgt = unalias(e.term[1], s, fi)
                 hit = _min_table_store(fi, tgt)
                 if hit is not None:
                     n += 1
@@ -100,7 +103,8 @@ def _judge_store(ctx: Ctx, c: Collector, fi: FuncInfo, s: Summary, e: Event, tna
     # (a2) update_min(existing, new) guarded by `is not None`
     if val[0] == "call" and val[1] == T.glob(UPDATE_MIN) and len(val[2]) == 2:
         old, new = val[2]
-        old_ok = old in get_forms or old == ("idx", call(("attr", table, "get"), key, ("tuple", (T.NONE,))), T.const(0))
+        old = unalias(old, s, fi)
+        old_ok = old in get_forms or any((x[0] == "call" and x[1] == ("attr", table, "get") and x[2][:1] == (key,)) or x == ("idx", table, key) for x in T.subterms(old))
         if not old_ok:
             c.bad("store", fi.qualname, construct, f"update_min compares with {T.show(old)[:80]}, not with the existing entry for the same key", loc)
             return
